@@ -416,40 +416,40 @@ def diff_state(impl, ref: Ref, stage, op_kind):
 def diff_rtconfig(comp: Comp, ref: Ref):
     out = []
     for task, cycle in TARGETS:
-        if True:
-            want, who = ref.rtconfig(comp.env['static'][task], task, cycle)
-            got = comp.rtconfig(task, cycle)
-            for keys in sorted(set(want) | set(got), key=repr):
-                w = want.get(keys, '<absent>')
-                g = got.get(keys, '<absent>')
-                if w == g:
-                    continue
-                if w is None and g == '<absent>' or (
-                        g is None and w == '<absent>'):
-                    continue
-                # which layer's value did the task receive instead?
-                src = 'other'
-                for layer, p in (('all', '*'), ('cycle', cycle)):
-                    for n in ANCESTRY[task]:
-                        if ref.flat.get((p, n, keys)) == g:
-                            src = f'{layer}/{NS_ROLE[n]}'
-                if src == 'other' and comp.env['static'][task].get(keys) == g:
-                    src = 'static'
-                sig = (f"rtconfig-precedence:want={who.get(keys, 'absent')}"
-                       f":got={src}")
-                out.append((
-                    sig,
-                    f"{cycle}/{task} {'/'.join(keys)}={g!r}, expected {w!r} "
-                    f"(from {who.get(keys, 'nowhere')})"))
+        want, who = ref.rtconfig(comp.env['static'][task], task, cycle)
+        got = comp.rtconfig(task, cycle)
+        for keys in sorted(set(want) | set(got), key=repr):
+            w = want.get(keys, '<absent>')
+            g = got.get(keys, '<absent>')
+            if w == g:
+                continue
+            if w is None and g == '<absent>' or (
+                    g is None and w == '<absent>'):
+                continue
+            # which layer's value did the task receive instead?
+            src = 'other'
+            for layer, p in (('all', '*'), ('cycle', cycle)):
+                for n in ANCESTRY[task]:
+                    if ref.flat.get((p, n, keys)) == g:
+                        src = f'{layer}/{NS_ROLE[n]}'
+            if src == 'other' and comp.env['static'][task].get(keys) == g:
+                src = 'static'
+            sig = (f"rtconfig-precedence:want={who.get(keys, 'absent')}"
+                   f":got={src}")
+            out.append((
+                sig,
+                f"{cycle}/{task} {'/'.join(keys)}={g!r}, expected {w!r} "
+                f"(from {who.get(keys, 'nowhere')})"))
     return out
 
 
 def execute(history, env, seen=None, final_restart=True):
     """Run one history on a fresh component with the whole oracle.
 
-    Returns (key, [(signature, what)], n_ops_executed).  When `seen`
-    contains the reached state's key the state-level checks are skipped
-    (they are a deterministic function of the key).
+    Returns (key, [(signature, what)], fresh, effect): `fresh` is False
+    when `seen` already contains the reached state's key, in which case the
+    state-level checks are skipped (they are a deterministic function of the
+    key); `effect` tells whether the last operation did anything.
     """
     comp = Comp(env)
     ref = Ref()
